@@ -770,6 +770,14 @@ class Body:
                     a, b2 = a[1], b2[1]
                     if a[0] == "V" and b2[0] == "V" and a[2] == () and b2[2] == () and a[1] is not None and b2[1] is not None:
                         res = (a[1] == b2[1]) if cp.endswith("::eq") else (a[1] != b2[1])
+            # library facts about `?`: the residual of a Result converts into an Err; branching a known Ok / Err gives Continue / Break
+            dty = str(t["dest"].get("ty") or self.local_ty(t["dest"]["l"]) or "")
+            if res is None and cp.endswith("FromResidual::from_residual") and not t["dest"]["p"] and strip_generics(dty).endswith("result::Result"):
+                res = ("V", "Err", (None,))
+            if res is None and cp.endswith("Try::branch") and len(t["args"]) == 1 and not t["dest"]["p"]:
+                a = ev_op(env, t["args"][0])
+                if a is not None and not isinstance(a, bool) and a[0] == "V" and a[1] in ("Ok", "Err", "Some", "None"):
+                    res = ("V", "Continue" if a[1] in ("Ok", "Some") else "Break", (None,))
             if res is None:
                 env.pop(t["dest"]["l"], None)
             else:
